@@ -390,19 +390,34 @@ def run(tier: str, seed: int) -> dict:
             nontrivial += nt
             viol.extend(v)
             samples.extend(s)
-    # deduplicate: per kind, shortest sequences first, at most 40
+    # deduplicate: per kind, shortest sequences first, at most 40; a worker process runs many sequences one
+    # after the other, so a failure may be caused by an EARLIER sequence of the same worker: every candidate is
+    # re-run alone in a fresh fork of the pristine parent, and the ones that fail there too are preferred.
     by_kind = {}
+    cands = {}
     seen = set()
     for v in sorted(viol, key=lambda v: (len(v["input"]["sequence"]), json.dumps(v["input"]["sequence"]))):
-        key = (v["kind"], v["what"].split(":")[0] if v["kind"].startswith("c14-env") else json.dumps(v["input"]["sequence"][v["input"]["step"]:v["input"]["step"] + 1]),
-               v["observed"] if isinstance(v["observed"], str) else json.dumps(v["observed"]))
+        stepop = json.dumps(v["input"]["sequence"][v["input"]["step"]:v["input"]["step"] + 1])
+        key = (v["kind"], v["what"].split(":")[0] if v["kind"].startswith("c14-env-leak") and v["input"]["step"] >= len(v["input"]["sequence"]) else stepop,
+               json.dumps(v["input"]["sequence"]))
         if key in seen:
             continue
         seen.add(key)
-        lst = by_kind.setdefault(v["kind"], [])
-        if len(lst) < 40:
-            v["input"]["replays_in_fresh_process"] = _isolated(v["input"]["sequence"], ref)
-            lst.append(v)
+        cands.setdefault(v["kind"], []).append(v)
+    for kind, lst in cands.items():
+        keep, weak, classes = [], [], set()
+        for v in lst[:200]:
+            cls = (json.dumps(v["input"]["sequence"][v["input"]["step"]:v["input"]["step"] + 1]), str(v["observed"])[:200])
+            ok = _isolated(v["input"]["sequence"], ref)
+            v["input"]["replays_in_fresh_process"] = ok
+            if ok and cls not in classes:
+                classes.add(cls)
+                keep.append(v)
+            elif not ok and len(weak) < 5:
+                weak.append(v)
+            if len(keep) >= 40:
+                break
+        by_kind[kind] = keep if keep else weak
     violations = [v for k in sorted(by_kind) for v in by_kind[k]]
     n_red, n_full = len(_G["ops"]["reduced"]), len(_G["ops"]["full"])
     return {
